@@ -166,9 +166,9 @@ func (w *world) consumerStep(op string, f []string, async bool, refs *[]*refHold
 }
 
 func genConsumers(rng *rand.Rand, tier string) []string {
-	steps := 14 + rng.Intn(18)
+	steps := 12 + rng.Intn(14)
 	if tier == "thorough" {
-		steps = 24 + rng.Intn(40)
+		steps = 18 + rng.Intn(24)
 	}
 	out := []string{fmt.Sprintf("config %d 1 1", rng.Intn(2))}
 	nrefs, ncons, nent := 0, 0, 0
@@ -188,7 +188,7 @@ func genConsumers(rng *rand.Rand, tier string) []string {
 			ncons++
 			nrefs++
 			nent++
-		case r < 20 && ncons < 4:
+		case r < 20 && ncons-len(accs) < 1:
 			out = append(out, []string{"wait", "resolve", "rwr 1", "rwr 1", "rwr 0"}[rng.Intn(5)])
 			ncons++
 			nrefs++
